@@ -214,6 +214,9 @@ def run(idx, rep, tier):
     # ---- HOMOG in the scale of the operator: floors inside the factorisation loop must scale with what they guard
     from sa.homog import krylov_floor_obligations
     krylov_floor_obligations(idx, rep, fact, init, "scale-floor")
+    # ---- the monitored loop runner only observes: it must not add stopping criteria of its own
+    for f_, ok_, text_, node_ in lp.runner_transparency(idx):
+        rep.decide(ok_, "runner-transparency", "while_loop_winfo", text_, detail="" if ok_ else "extra-exit", locs=[idx.loc(f_.module, node_)])
     rep.floor("buffer-dtype", 2)
     rep.floor("loop-cap", 2)
     rep.floor("buffers", 2)
